@@ -14,6 +14,33 @@ CHECKS = {
     design_ref="6/C17",
     note=("Configuration space = constants of MC_CpuCount_{quick,thorough}.cfg; Linux branch only; inputs substituted at "
           "module level (os facade, open, psutil, probe); trusted: TLC, the substitution harness engine/pure/cpu_child.py.")),
+ "C11": dict(
+    engine="E-PURE", technique="TLA+ spec of the tracker's line protocol + registry; every transition of TLC's state graph replayed into the real main(fd); recorded runs validated by TLC against the trace spec",
+    text=("ResourceTracker.tla models the request line protocol (field-level parsing rule included) and the refcount registry "
+          "as in the code, with ghost variables in the property's own words; TLC checks the property as invariants/action "
+          "properties exhaustively for the quick alphabet. Binding, both directions: every transition of the state graph (and "
+          "long simulated behaviours over a larger alphabet) is replayed into the real resource_tracker.main(fd), valid requests "
+          "being written by the real client API; random byte streams fed to the real main(fd) are validated by TLC against "
+          "Trace_ResourceTracker.tla. Right level: the tracker is a sequential state machine over an unbounded input language; "
+          "exhaustive small-scope model checking plus trace validation covers histories tests cannot enumerate."),
+    design_ref="6/C11",
+    note=("In-process run of main(fd) with _CLEANUP_FUNCS replaced by recorders (no real unlink), signal/stdio neutralised; "
+          "POSIX cleanup table; counts <= 2 exhaustively, larger only sampled; trusted: TLC, engine/pure/tracker_child.py.")),
+ "C14": dict(
+    engine="E-SIM", technique="TLA+ spec with one action per semaphore operation, TLC exhaustive; behaviours replayed step-by-step into the real Condition code on instrumented semaphores; TLA+ monitors over observation traces; SemLock.tla replayed on real primitives across processes",
+    text=("Condition.tla has one action per semaphore operation of wait/notify/notify_all, timeouts firing at any moment; TLC "
+          "checks the clauses of the property exhaustively for 2-3 waiters, 1-2 notifiers, bursts of 2. Every transition of the "
+          "smallest graph and simulated behaviours of the larger ones are replayed operation by operation into the real "
+          "methods running on instrumented semaphores installed through Condition.__setstate__, the projected state compared "
+          "after each step; seeded random/priority schedules explore the real code as well; each execution ends with an epilogue "
+          "re-using the object; verdicts come from the TLA+ monitors Mon_C14 / Mon_C14E evaluated by TLC on the observation "
+          "traces. SemLock.tla behaviours are replayed on the real Lock/RLock/Semaphore/BoundedSemaphore from two threads of the "
+          "parent and of a loky child holding pickled copies. Known finding D5 (lost notify) is reproduced from TLC's "
+          "counterexample on the real code."),
+    design_ref="6/C14",
+    note=("Condition/Event interleavings are explored on modelled counting semaphores (trusted base, bound to the real ones by "
+          "part b); real primitives are exercised with non-blocking operations only; Event is covered by seeded schedules and a "
+          "monitor, not by an exhaustive spec of its own.")),
 }
 
 NOT_YET = "check not built yet in this round (work in progress; see DESIGN.md section 10)"
